@@ -52,6 +52,7 @@ type propDef struct {
 	Real      []string
 	LevelText string
 	LevelNote string
+	Chunk     int64 // seeds per worker process launch
 }
 
 var w1Real = []string{
@@ -85,12 +86,18 @@ func init() {
 	w1("C20", "seeded scenario with hooks configured and simulated hook processes x seeded schedule; non-trivial = two or more hook launches; distinct = distinct event-order hash")
 	w1("C39", "seeded scenario with forward lists and reloads x seeded schedule; non-trivial = a forwarder handler was started; distinct = distinct event-order hash")
 	w1("C40", "seeded scenario with everything enabled (publishers, readers, API polls, reloads, hooks, forwarders, shutdown) x seeded schedule, built with the race detector; the scheduler's own synchronisation is hidden from the detector so happens-before is the program's; non-trivial = at least one publisher and one reader attached; distinct = distinct event-order hash", "*")
-	reg(&propDef{ID: "C33", World: "s2", Level: "exploration", Quick: 40000, Thorough: 4000000, QuickS: 60, ThorS: 900,
-		Rule:  "seeded sender (group ids with gaps, payload sizes) x seeded network (reorder window 0..2*MaxReordered, duplication with equal or different size, loss, late duplicates) x limits (MaxReordered 1-8, MaxPendingBytes 64..100000) x 1-3 concurrent pushers under the seeded scheduler; non-trivial = the arrival sequence contains reordering, duplication or loss; distinct = distinct event-log hash",
-		Real:  []string{"internal/protocols/moq/reorderer.Reorderer (instrumented)"},
-		Stubs: []string{"QUIC transport and MoQ session: replaced by a simulated network that decides arrival order, duplication and loss; the consumer of the handed-on subgroups is the oracle"},
+	reg(&propDef{ID: "C33", World: "s2", Chunk: 600, Level: "exploration", Quick: 40000, Thorough: 4000000, QuickS: 60, ThorS: 900,
+		Rule:      "seeded sender (group ids with gaps, payload sizes) x seeded network (reorder window 0..2*MaxReordered, duplication with equal or different size, loss, late duplicates) x limits (MaxReordered 1-8, MaxPendingBytes 64..100000) x 1-3 concurrent pushers under the seeded scheduler; non-trivial = the arrival sequence contains reordering, duplication or loss; distinct = distinct event-log hash",
+		Real:      []string{"internal/protocols/moq/reorderer.Reorderer (instrumented)"},
+		Stubs:     []string{"QUIC transport and MoQ session: replaced by a simulated network that decides arrival order, duplication and loss; the consumer of the handed-on subgroups is the oracle"},
 		LevelText: "seeded search over arrival sequences and pusher interleavings of the real reorderer; sequential runs are checked against a reference of what may be held back, concurrent runs against order-insensitive clauses",
 		LevelNote: "trusted: goinst rewrite; the reference for 'held back' counts distinct received groups newer than the last delivered one and the smallest received copy of each"})
+	reg(&propDef{ID: "C25", World: "s1", Chunk: 1500, Level: "exploration", Quick: 60000, Thorough: 5000000, QuickS: 45, ThorS: 900,
+		Rule:      "seeded sequence of 20-220 frames (clock rates 1 Hz..1 GHz, regular / stalled / jumping / backward / wrapping timestamps) x seeded wall clock (steady, drifting up to 2 %, scheduling jitter, forward and backward jumps of 1 ms..1 h) through the timeNow seam; non-trivial = at least one clock or timestamp jump; distinct = distinct (seed, jumps, re-references)",
+		Real:      []string{"internal/ntpestimator.Estimator"},
+		Stubs:     []string{"wall clock: simulated through the package variable timeNow"},
+		LevelText: "seeded search over frame-timestamp and wall-clock histories of the real estimator; the window clause is checked on every call, the exact-difference clause on every steady step whose expected value stays inside the window",
+		LevelNote: "trusted: exact reference arithmetic with math/big; 1 ns tolerance for the two truncations"})
 	props["C40"].Race = true
 	props["C40"].Quick, props["C40"].Thorough = 1200, 100000
 	props["C40"].LevelNote += "; metrics scrapes over HTTP and real session kick paths are outside (front-ends are stubs); data races are those the Go race detector reports under the explored schedules"
@@ -622,6 +629,9 @@ func cmdCheck(args []string) {
 	chunk := int64(40)
 	if p.Race {
 		chunk = 15
+	}
+	if p.Chunk > 0 {
+		chunk = p.Chunk
 	}
 	first := baseSeed * 10_000_000
 	next := first
